@@ -584,8 +584,10 @@ static ASMJIT_FAVOR_SIZE Error validate(InstDB::Mode mode, const BaseInst& inst,
     }
   }
   else {
-    // Illegal use of a high 8-bit register with REX prefix.
-    bool has_rex = inst.has_option(InstOptions::kX86_Rex) || (combined_reg_mask & 0xFFFFFF00u) != 0;
+    // Illegal use of a high 8-bit register with REX prefix - REX is required by the {rex} option, by registers having
+    // an id greater than 7, and by REX.W that every instruction having a 64-bit general purpose register operand and
+    // an 8-bit register operand (movsx, movzx, crc32) needs.
+    bool has_rex = inst.has_option(InstOptions::kX86_Rex) || (combined_reg_mask & 0xFFFFFF00u) != 0 || Support::test(combined_op_flags, InstDB::OpFlags::kRegGpq);
     if (ASMJIT_UNLIKELY(has_rex && Support::test(combined_op_flags, InstDB::OpFlags::kRegGpbHi))) {
       return make_error(Error::kInvalidUseOfGpbHi);
     }
